@@ -35,7 +35,7 @@ RULE = (
     "every state: full table + constraint_current for every ordered subset of names x time-index subsets; non-trivial = state with >=2 constraints of which one has mixed-sign or fractional coefficients"
 )
 ASSUMPTIONS = [
-    "stations A,B,C(,D) with distinct phase angles/voltages; expression alphabet of 22 shapes (builtin and numpy scalars); limits are functions of the operation (finite state space)",
+    "stations A,B,C(,D) with distinct phase angles/voltages; expression alphabet of 25 shapes (builtin and numpy scalars); limits are functions of the operation (finite state space)",
     "time_indices are given in ascending order (for those 'as requested' and 'network order' coincide); constraint names at most one duplicate deep (documented _v2 rule)",
     "registering an EVSE after ALL constraints were removed again is left unspecified by the property: refusal and acceptance are both allowed, the state must stay consistent",
     "bounded depth; canonical state merges operation sequences leading to equal (station order, rows): the network's future depends on nothing else",
@@ -72,6 +72,11 @@ EXPRS = [
     ["sub", D2, D2],
     ["add", ["lmul", 0.25, ["sub", A, BC]], ["rmul", D1, 0.25]],
     ["sub", ["rmul", CA, 3], ["lmul", 0.5, D2]],
+    # operands stay what they were: the operand x took part in a sum with an EMPTY Current (both sides, and as the
+    # start value of sum()), the RESULT was scaled in place - the constraint is then built from x itself
+    ["reuse", BC, "x+empty"],
+    ["reuse", D1, "empty+x"],
+    ["reuse", CA, "sum([x], empty)"],
     # scalars that are not builtin numbers (taken out of numpy arrays)
     ["sub", ["lmul", {"np": "int64", "v": 2}, BC], A],
     ["add", A, ["rmul", BC, {"np": "float64", "v": 0.25}]],
@@ -107,6 +112,12 @@ def ev_real(e):
         return scalar(e[1]) * ev_real(e[2])
     if k == "rmul":
         return ev_real(e[1]) * scalar(e[2])
+    if k == "reuse":
+        x = ev_real(e[1])
+        r = x + Current() if e[2] == "x+empty" else (Current() + x if e[2] == "empty+x" else sum([x], Current()))
+        r *= 3  # in place, on the RESULT
+        r["A"] = 99.0
+        return x
     raise ValueError(e)
 
 
@@ -129,6 +140,8 @@ def ev_model(e):
         return {s: scalar_value(e[1]) * c for s, c in ev_model(e[2]).items()}
     if k == "rmul":
         return {s: scalar_value(e[2]) * c for s, c in ev_model(e[1]).items()}
+    if k == "reuse":
+        return ev_model(e[1])
     raise ValueError(e)
 
 
@@ -139,6 +152,8 @@ def shape(e):
         return "x"
     if k in ("add", "sub"):
         return "(%s%s%s)" % (shape(e[1]), "+" if k == "add" else "-", shape(e[2]))
+    if k == "reuse":
+        return "operand-after-%s-was-scaled-in-place" % e[2]
     if k == "lmul":
         return "%s*%s" % ("npk" if isinstance(e[1], dict) else "k", shape(e[2]))
     return "%s*%s" % (shape(e[1]), "npk" if isinstance(e[2], dict) else "k")
@@ -250,7 +265,7 @@ def step(st: State, op, viol):
             elif kind == "upd":
                 n, i, new = op[1], op[2], op[3]
                 e = EXPRS[i]
-                limit = 50.0 + i
+                limit = 50.0 + i if new != "r" else 0.0  # the renaming update also sets a limit of exactly 0 A
                 coefs = ev_model(e)
                 try:
                     cur = ev_real(e)
